@@ -17,22 +17,20 @@ THE PROPERTY (id {pid}: {p['title']}):
 Quantified over: {p['quantifier']['text']}
 Code the property is anchored in: {', '.join(p['anchors']['files'])}
 
-TASK: produce TWO independent seeded defects (A and B) for this property, in different mechanisms/places if possible. Each must:
- 1. be a small plausible source change (the kind of slip or 'optimisation' a maintainer could really make: an off-by-one, a wrong sort key, a cache or shared scratch buffer, a skipped branch for a 'rare' case, an early return, in-place update of an argument, wrong operand used for alignment, a missing restore on an exception path, ...). Not a blatant sabotage such as `if x == 7: return garbage`, and not a special case keyed on one magic input value.
- 2. violate the property above for some inputs — observable through the public API.
- 3. need something SPECIFIC to manifest, so that ordinary use and the existing tests do not expose it at once: e.g. a particular multi-step sequence of operations, an unusual-but-legal input (a view, a size-1 axis, three or more indeterminates, names like q10 vs q2, cancelling terms, many equal-degree terms, a rarely used dtype, nested contexts, an exception path, 0-d arrays, large exponents ...), or two cooperating sites that each look fine alone.
- 4. keep the whole existing test-suite outcome unchanged (run it!), and keep the library importable.
+TASK: produce FOUR independent seeded defects (A, B, C and D) for this property, each in a DIFFERENT function (or clearly different branch) of the code the property is anchored in. This round is about BREADTH, not subtlety: everyday one- or two-line slips of the kind that really get committed - a wrong variable or attribute (x1 where x2 was meant, shape for size, exponents for coefficients, names for keys), a wrong axis or a missing keepdims, a swapped pair of arguments, a dropped minus sign or a forgotten abs, < for <=, an off-by-one in a range or slice, integer instead of true division, a default value changed, a missing copy, a condition negated or simplified away, an early return that skips a needed step, a loop that starts at 1, `and` for `or`, a sort that lost its key, ... Each must:
+ 1. be small and plausible (no sabotage keyed on a magic value),
+ 2. violate the property above for some inputs, observably through the public API,
+ 3. sit in a function, branch or argument combination that the existing tests do not exercise, so that the whole existing test-suite outcome stays unchanged (run it: the same failures listed below and nothing else), and the library still imports.
+Prefer public functions and branches named in the property that the existing tests never call (look at the test files to see what they cover). Earlier rounds concentrated on exotic triggers; do not do that here - ordinary small inputs should be enough to show each defect once you call the right function in the right way.
 
-For each defect X in (A, B) write, inside {wt}/MUTANT/:
-  - X.patch.diff : output of `git diff` for that change alone (relative to the unchanged checkout; the two patches must each apply on their own to a clean checkout with `git apply`),
+For each defect X in (A, B, C, D) write, inside {wt}/MUTANT/:
+  - X.patch.diff : output of `git diff` for that change alone (relative to the unchanged checkout; each patch must apply on its own to a clean checkout with `git apply`),
   - X.demo.py    : a small standalone program (run as `cd <checkout> && /venv/bin/python MUTANT/X.demo.py`) that exits 0 on the unchanged checkout and exits non-zero (assertion failure) when the patch is applied, demonstrating the property violation through public API calls only,
-  - X.notes.md   : 5-10 lines: what was changed, which clause of the property it breaks, what exactly is needed for it to manifest, and the commands you ran (test-suite result with the patch, demo result with and without the patch).
-Procedure per defect: start from a clean checkout (`git -C {wt} checkout -- .`; the MUTANT directory is untracked and stays), make the change, run the test-suite, run the demo (must fail), save `git diff > MUTANT/X.patch.diff`, revert with `git checkout -- .`, run the demo again (must pass). Leave the checkout clean (reverted) at the end, with only the MUTANT/ directory added. Before finishing, double-check both patches apply cleanly with `git apply --check`.
+  - X.notes.md   : 3-6 lines: what was changed, which clause of the property it breaks, what is needed for it to manifest, test-suite and demo results.
+Procedure per defect: start from a clean checkout (`git -C {wt} checkout -- .`; the MUTANT directory is untracked and stays), make the change, run the test-suite, run the demo (must fail), save `git diff > MUTANT/X.patch.diff`, revert with `git checkout -- .`, run the demo again (must pass). Leave the checkout clean (reverted) at the end, with only the MUTANT/ directory added. Before finishing, double-check all patches apply cleanly with `git apply --check`. If you cannot find four, deliver as many as you can.
 
-Known limitations of the unchanged checkout (do not build on these; your demo must pass on the unchanged checkout): matmul with 1-d operands does not follow numpy; size-0 (empty) arrays lose their shape; repeat without an axis repeats along axis 0; power with non-integer exponents truncates them; a numpy scalar on the left of / % divmod dispatches to numeric division. On the unchanged checkout the test-suite fails exactly these 12 tests and no others: test_count_nonzero[numpoly|numpy], test_amax[numpoly|numpy], test_amin[numpoly|numpy], test_max[numpoly|numpy|method], test_min[numpoly|numpy|method] (their expectations are known to be wrong); with your change the outcome must be identical. Run the suite WITHOUT -x. Never use `git stash` (the stash is shared between all worktrees and other agents work concurrently); to compare with the unchanged checkout save your diff to a file and use `git checkout -- .`.
-
-This is a sixth round. Earlier rounds already produced, for the various properties of this library, defects of these kinds, ALL of which were caught: off-by-one / skipped first or last term; wrong option key; numpy.resize instead of broadcasting; inverse permutations; memoisation with an incomplete key or returning the cached array itself; dtype casts and promotions (narrow ints, byte order, uint64 x int64 -> float); in-place updates of operands (values, shape, cached exponents, index arrays, exponent tables handed in by reference); early returns for "trivial" inputs; negative-axis normalisation; text encodings and isdigit() on key characters; exception classes missed on restore paths or changed by an error-message helper; integer overflow of packed exponent codes / uint32 exponent arithmetic; thresholds on the number of terms, header length or a blocked loop of 64; tolerance-based decisions; unstable sorts beyond 16 items; swapped positional parameters; keyword-only calls; a caller's dict used as scratch; rarely used keywords; dependence on memory layout (ravel(order="K"), Fortran-ordered inputs, views, transposed inputs); set iteration order; keyword order; file objects not at offset 0; results that are views of an argument; names sorted as text; non-default default_varname / varname_filter / force_number_suffix, names given as one string; retain_names / retain_coefficients set globally while calling lead_exponent, str, call, derivative, align; infinite or nan coefficients (0*inf, inf-inf, equal infinities); numpy.errstate(raise); huge float magnitudes; subclasses of ndpoly / ndarray as operands; the same object on both sides of an operator; operand sequences given as one polynomial array; context managers created before they are entered, decorator form; first call of a process under non-default options. Find something of a DIFFERENT kind, or in a different place. Directions not used so far: a defect that needs the COMPOSITION of two different public functions (the representation that function A legitimately returns - extra zero terms, unused names, unsorted exponent rows, a view, a non-contiguous or 0-d result, an object of another dtype - is mishandled by function B, while each is right on ordinary inputs); a large NUMBER of operands or names (concatenate / stack / sum / align of 30-100 arrays, 6-12 indeterminates at once) when only the count matters; aliasing between two RESULTS of one call (outputs of align_* / broadcast_arrays / split / divmod sharing memory so that writing one changes the other); iteration and conversion protocols (for x in p, p.flat, len, tolist, item, bool, int/float/complex of a 0-d constant, numpy.asarray(p), p.view, p.astype with copy=False, p.copy(order=...)); pickling / copying of views, subclasses, Fortran-ordered or read-only arrays, deepcopy with a memo; rarely used dtypes that numpy offers (float16, longdouble, clongdouble, object) and extreme but valid integers (2**63-1, -2**63, 2**64-1) where wrap-around is NOT numpy's own behaviour; a wrong mathematical rule in a rarely exercised branch (higher n in diff, det of 5x5, division with three indeterminates, mixed partials of order 3, cross_truncation given as a pair, maximum of three-way ties, mean of integers); anything that depends on the ORDER in which two independent public calls were made earlier in the process.
+Known limitations of the unchanged checkout (do not build on these; your demo must pass on the unchanged checkout): matmul with 1-d operands does not follow numpy; size-0 (empty) arrays lose their shape; repeat without an axis repeats along axis 0; power with non-integer exponents truncates them; a numpy scalar on the left of / % divmod dispatches to numeric division; out= arguments are handled inconsistently. On the unchanged checkout the test-suite fails exactly these 12 tests and no others: test_count_nonzero[numpoly|numpy], test_amax[numpoly|numpy], test_amin[numpoly|numpy], test_max[numpoly|numpy|method], test_min[numpoly|numpy|method] (their expectations are known to be wrong); with your change the outcome must be identical. Run the suite WITHOUT -x. Never use `git stash` (the stash is shared between all worktrees and other agents work concurrently); to compare with the unchanged checkout save your diff to a file and use `git checkout -- .`. The machine is busy: the test-suite may take a few minutes.
 
 When a demo is run as `cd <checkout> && /venv/bin/python MUTANT/X.demo.py`, Python puts MUTANT/ (not the checkout) first on sys.path: start each demo with `import sys, os; sys.path.insert(0, os.getcwd())` and assert that numpoly.__file__ lies under the checkout.
 
-Final answer: a short report listing, for A and B: the files changed, a one-sentence description, what is needed to trigger it, and confirmation of the test-suite and demo results.""")
+Final answer: a short report listing, for each of A-D: the files changed, a one-sentence description, what is needed to trigger it, and confirmation of the test-suite and demo results.""")
